@@ -55,10 +55,35 @@ def main(tier):
             tie["broken_details"].append({"rust_source": s, "disagreement": bad})
         if runs[0][i]["outcome"] == "ok" and len(runs[0][i]["items"]) >= 2:
             tie["distinct_nontrivial"] += 1
+    # the real proc-macro under rustc: the same crate expanded in several compiler processes
+    try:
+        import os
+        from . import c18
+        so = common.build_proc_macro()
+        work = common.scratch("C16")
+        sample = [(i, (s.replace("#[derive(Educe)]\n", "").replace("#[derive(Educe)]", ""), None)) for i, s in cases if runs[0][i]["outcome"] == "ok"]
+        sample = sample[:: max(1, len(sample) // (60 if tier == "quick" else 600))]
+        n_rustc = 3 if tier == "quick" else 8
+        outs = [c18.expand_with(so, sample, work, "p%d" % k)[0] for k in range(n_rustc)]
+        for i, _ in sample:
+            tie["evaluations"] += n_rustc
+            texts = {o.get(i) for o in outs}
+            if len(texts) > 1:
+                tie["failing"].append({"what": "rustc processes print different expansions of the same derive input (real proc-macro)",
+                                       "rust_source": src[i], "observed": sorted(t or "<none>" for t in texts)[0][:600], "expected_spec": "one expansion",
+                                       "processes": n_rustc})
+        tie["extra"]["rustc_processes"] = n_rustc
+        tie["extra"]["rustc_inputs"] = len(sample)
+        import shutil
+        shutil.rmtree(work, ignore_errors=True)
+    except (common.BuildError, OSError) as e:
+        tie["broken"].append("B3: rustc expansion run failed: " + str(e)[:300])
+    tie["failing"] = tie["failing"][:4]
     tie["broken"] = tie["broken"][:3]
     tie["rule"] = ("valid definitions of every trait (pool of the behavioural generators) plus definitions with 2-4 Into targets; each "
                    "expanded %d times in one process and once in each of %d further processes (fresh hash seeds); all token streams "
-                   "and diagnostics must coincide, and the impl order must be the model's. distinct_nontrivial = inputs with >=2 impl items" % (repeat + 1, procs - 1))
+                   "and diagnostics must coincide, and the impl order must be the model's; a sample of the accepted inputs is also expanded by the real proc-macro in several rustc "
+                   "processes (-Zunpretty=expanded) and the printed expansions compared. distinct_nontrivial = inputs with >=2 impl items" % (repeat + 1, procs - 1))
     tie["samples"] = [{"rust_source": s, "tokens": (runs[0][i].get("tokens") or "")[:300]} for i, s in cases[-2:]]
     tie["extra"]["processes"] = procs
     return common.finish("C16", tier, t0, proof, tie)
